@@ -45,7 +45,7 @@ Proof. vm_compute. reflexivity. Qed.
 
 (* world invariant used by the "unauthenticated" theorem: identity 0 is nobody *)
 Definition wf_world (w : world) : Prop :=
-  ~ In 0 (w_online w) /\ (forall d, In d (w_doms w) -> d_owner d <> 0).
+  ~ In 0 (w_online w) /\ (forall d, In d (w_doms w) -> d_owner d <> 0) /\ (forall i c, In (i, c) (w_bind w) -> c <> 0).
 
 (* ------------------------------------------------------------------------------------------ *)
 (* list helpers                                                                               *)
@@ -182,8 +182,46 @@ Proof.
   exists x. auto.
 Qed.
 
-Lemma world_eta w : with_online w (w_online w) = w.
+Lemma world_eta w : with_reg w (w_online w) (w_bind w) = w.
 Proof. destruct w; reflexivity. Qed.
+
+Lemma lookup_bind_in i l c : lookup_bind i l = Some c -> In (i, c) l.
+Proof.
+  induction l as [|[j d] l IH]; cbn [lookup_bind]; intro H; [discriminate|].
+  destruct (j =? i) eqn:E.
+  - injection H as ->. apply N.eqb_eq in E. subst j. now left.
+  - right. now apply IH.
+Qed.
+
+Lemma remove_bind_absent i l : lookup_bind i l = None -> remove_bind i l = l.
+Proof.
+  induction l as [|[j d] l IH]; cbn [lookup_bind remove_bind]; intro H; [reflexivity|].
+  destruct (j =? i); [discriminate|]. f_equal. now apply IH.
+Qed.
+
+Lemma remove_bind_sub i l p : In p (remove_bind i l) -> In p l.
+Proof.
+  induction l as [|[j d] l IH]; cbn [remove_bind]; [tauto|].
+  destruct (j =? i); cbn [In]; intro H; [right; now apply IH|]. destruct H as [H|H]; [now left|right; now apply IH].
+Qed.
+
+Lemma remove_bind_lost i l j c : In (j, c) l -> ~ In (j, c) (remove_bind i l) -> j = i.
+Proof.
+  induction l as [|[j' d] l IH]; cbn [remove_bind In]; [tauto|].
+  destruct (j' =? i) eqn:E; intros Hin Hnot.
+  - destruct Hin as [Heq|Hin]; [injection Heq as -> _; now apply N.eqb_eq in E|now apply IH].
+  - cbn [In] in Hnot. destruct Hin as [Heq|Hin]; [exfalso; apply Hnot; now left|].
+    apply IH; [exact Hin|]. intro H. apply Hnot. now right.
+Qed.
+
+(* a connection whose registry identity is 0 has no registry entry (in a well-formed world) *)
+Lemma identity_zero_unbound w k : wf_world w -> conn_identity w k = 0 -> unbind_k k (w_bind w) = w_bind w.
+Proof.
+  intros [_ [_ Hb]] Hid. destruct k as [| | |i]; try reflexivity. cbn [unbind_k conn_identity] in *.
+  destruct (lookup_bind i (w_bind w)) as [c|] eqn:L.
+  - exfalso. apply (Hb i c); [now apply lookup_bind_in|exact Hid].
+  - now apply remove_bind_absent.
+Qed.
 
 (* ------------------------------------------------------------------------------------------ *)
 (* shape of exec                                                                              *)
@@ -262,13 +300,13 @@ Definition w_demo : world :=
   {| w_maps := [{| m_id := 0; m_listen := 1; m_target := 2; m_socks := true; m_sent := 0; m_recv := 0 |};
                 {| m_id := 1; m_listen := 0; m_target := 2; m_socks := true; m_sent := 0; m_recv := 0 |}];
      w_codes := [{| c_id := 0; c_owner := 2; c_act := 0 |}]; w_doms := [{| d_id := 0; d_owner := 1 |}];
-     w_online := [1; 2; 3]; w_nm := 2; w_nc := 1; w_nd := 1 |}.
+     w_online := [1; 2; 3]; w_bind := [(1, 1); (2, 2); (3, 3)]; w_nm := 2; w_nc := 1; w_nd := 1 |}.
 Definition c_demo (t : N) (obj : option N) (tgt : option cid) : cmd :=
   {| k_type := t; k_resp := false; k_obj := obj; k_tgt := tgt; k_dir := 0; k_sent := 1000000; k_recv := 7; k_valid := true |}.
 
 Lemma packet_identity_table_refuted :
   exists w k cl1 cl2 c, exec forged_table w k cl1 c <> exec forged_table w k cl2 c.
-Proof. exists w_demo, (KAuth 3), 1, 0, (c_demo 76 (Some 0) None). vm_compute. discriminate. Qed.
+Proof. exists w_demo, (KConn 3), 1, 0, (c_demo 76 (Some 0) None). vm_compute. discriminate. Qed.
 
 (* ------------------------------------------------------------------------------------------ *)
 (* (2) no proven identity => nothing happens                                                  *)
@@ -291,7 +329,7 @@ Lemma unauth_refused_gen tbl :
   sound_table tbl = true ->
   forall w k cl c, wf_world w -> conn_identity w k = 0 -> inert w (exec tbl w k cl c).
 Proof.
-  intros Hs w k cl c [Hon Hdom] Hid.
+  intros Hs w k cl c Hwf Hid. pose proof Hwf as [Hon [Hdom Hbind]].
   destruct (exec_cases tbl w k cl c) as [|r F A Z|r F A].
   - apply mk_inert.
   - destruct (refuse_is_mk (r_eff r) w k) as [b ->]. apply mk_inert.
@@ -311,7 +349,8 @@ Proof.
       * (* EDomList *)
         cbn [run]. rewrite (filter_owner_zero _ Hdom). unfold inert; cbn. tauto.
       * (* EDisconnect *)
-        cbn [run]. rewrite Hid. rewrite (remove_cid_absent 0 (w_online w) Hon). rewrite world_eta. apply mk_inert.
+        cbn [run]. rewrite Hid. rewrite (remove_cid_absent 0 (w_online w) Hon).
+        rewrite (identity_zero_unbound w k Hwf Hid). rewrite world_eta. apply mk_inert.
 Qed.
 
 Lemma unauth_refused :
@@ -324,10 +363,9 @@ Proof. exact (unauth_refused_gen _ current_table_with_notify_sound). Qed.
 
 (* identity classes that prove nothing *)
 Lemma unauthenticated_kinds w : conn_identity w KUnknown = 0 /\ conn_identity w KFresh = 0 /\ conn_identity w KPending = 0
-  /\ (forall c, ~ In c (w_online w) -> conn_identity w (KAuth c) = 0).
+  /\ (forall i, lookup_bind i (w_bind w) = None -> conn_identity w (KConn i) = 0).
 Proof.
-  repeat split; try reflexivity. intros c H. cbn [conn_identity].
-  destruct (memN c (w_online w)) eqn:E; [apply memN_In in E; contradiction|reflexivity].
+  repeat split; try reflexivity. intros i H. cbn [conn_identity]. now rewrite H.
 Qed.
 
 (* ------------------------------------------------------------------------------------------ *)
@@ -586,13 +624,16 @@ Proof. exact (party_only_objects_gen current_table current_table_sound). Qed.
 Definition reach_ok (a : cid) (w : world) (r : result) : Prop :=
   (forall t ty s, In (t, ty, s) (res_deliv r) ->
      a <> 0 /\ t <> a /\ ((ty = C_NotifyClient /\ s = a) \/ exists m, In m (w_maps w) /\ m_listen m = a /\ m_target m = t)) /\
-  (forall x, In x (w_online w) -> ~ In x (w_online (res_world r)) -> x = a).
+  (forall x, In x (w_online w) -> ~ In x (w_online (res_world r)) -> x = a) /\
+  (forall x, In x (w_online (res_world r)) -> In x (w_online w)) /\
+  (forall p, In p (w_bind (res_world r)) -> In p (w_bind w)).
 
 Lemma reach_ok_mk a b w : reach_ok a w (mk b w).
-Proof. unfold reach_ok, mk; cbn. split; intros; contradiction. Qed.
+Proof. unfold reach_ok, mk; cbn. repeat split; intros; try contradiction; assumption. Qed.
 
-Lemma reach_ok_quiet a w r : res_deliv r = [] -> w_online (res_world r) = w_online w -> reach_ok a w r.
-Proof. intros H1 H2. unfold reach_ok. rewrite H1, H2. split; intros; cbn in *; contradiction. Qed.
+Lemma reach_ok_quiet a w r :
+  res_deliv r = [] -> w_online (res_world r) = w_online w -> w_bind (res_world r) = w_bind w -> reach_ok a w r.
+Proof. intros H1 H2 H3. unfold reach_ok. rewrite H1, H2, H3. repeat split; intros; cbn in *; try contradiction; assumption. Qed.
 
 Lemma deliver_in self t ty s x : In x (deliver self t ty s) -> x = (t, ty, s) /\ t <> self.
 Proof.
@@ -643,7 +684,7 @@ Proof.
       destruct (map_party_ok PMapListen a m) eqn:P; [|apply reach_ok_mk].
       destruct (memN (m_target m) (w_online w)); [|apply reach_ok_mk].
       cbn [map_party_ok] in P. apply N.eqb_eq in P. destruct (find_map_some _ _ _ Fm) as [Hin _].
-      unfold reach_ok; cbn. split; [|intros; contradiction].
+      unfold reach_ok; cbn. split; [|repeat split; intros; try contradiction; assumption].
       intros t ty s Hd. apply deliver_in in Hd. destruct Hd as [Heq Hne]. injection Heq as -> -> ->.
       split; [exact Ha|]. split; [exact Hne|]. right. exists m. auto.
     + (* EDnsForward *)
@@ -651,7 +692,7 @@ Proof.
       match goal with |- context [if negb (?t =? 0) && _ then _ else _] => set (tt := t) end.
       destruct (negb (tt =? 0) && memN tt (w_online w)) eqn:Eg; [|apply reach_ok_mk].
       apply andb_prop in Eg. destruct Eg as [Ent _]. apply negb_true_iff in Ent. apply N.eqb_neq in Ent.
-      unfold reach_ok; cbn. split; [|intros; contradiction].
+      unfold reach_ok; cbn. split; [|repeat split; intros; try contradiction; assumption].
       intros t ty s Hd. apply deliver_in in Hd. destruct Hd as [Heq Hne]. injection Heq as -> -> ->.
       split; [exact Ha|]. split; [exact Hne|]. right.
       subst tt. destruct (k_tgt c) as [t0|].
@@ -668,7 +709,7 @@ Proof.
     + (* ENotify *)
       destruct (k_tgt c) as [t|]; [|apply reach_ok_mk].
       match goal with |- context [if ?b then _ else _] => destruct b end; [apply reach_ok_mk|].
-      unfold reach_ok; cbn. split; [|intros; contradiction].
+      unfold reach_ok; cbn. split; [|repeat split; intros; try contradiction; assumption].
       intros t' ty s Hd. apply deliver_in in Hd. destruct Hd as [Heq Hne]. injection Heq as -> -> ->.
       split; [exact G|]. split; [exact Hne|]. left. split; reflexivity.
     + destruct (k_valid c); [|apply reach_ok_mk]. apply reach_ok_quiet; reflexivity.
@@ -677,8 +718,10 @@ Proof.
       destruct (d_owner d =? a); [|apply reach_ok_mk]. apply reach_ok_quiet; reflexivity.
     + apply reach_ok_quiet; reflexivity.
     + (* EDisconnect *)
-      unfold reach_ok; cbn. split; [intros; contradiction|].
-      intros x Hin Hnot. exact (remove_cid_lost _ _ _ Hin Hnot).
+      unfold reach_ok; cbn. split; [intros; contradiction|]. split; [|split].
+      * intros x Hin Hnot. exact (remove_cid_lost _ _ _ Hin Hnot).
+      * intros x Hin. eapply remove_cid_sub; eauto.
+      * intros p Hin. destruct k; cbn [unbind_k] in Hin; try assumption. eapply remove_bind_sub; eauto.
 Qed.
 
 Lemma reach_only :
@@ -722,8 +765,9 @@ Lemma pinned_traffic_refuted :
 Proof.
   exists w_demo, KUnknown, 0, (c_demo 110 (Some 0) None).
   split; [reflexivity|]. split; [|vm_compute; discriminate].
-  split; [cbn; intros [H|[H|[H|[]]]]; discriminate H|].
-  intros d [<-|[]]. cbn. discriminate.
+  split; [cbn; intros [H|[H|[H|[]]]]; discriminate H|]. split.
+  - intros d [<-|[]]. cbn. discriminate.
+  - intros i c [H|[H|[H|[]]]]; injection H as _ <-; discriminate.
 Qed.
 
 (* HandleDNSResolveRequest / HandleDNSQueryRequest: an unknown connection reaches client 2 *)
@@ -734,7 +778,7 @@ Proof. exists w_demo, KUnknown, 0, (c_demo 120 None (Some 2)). split; [reflexivi
 Lemma pinned_dns_stranger_refuted :
   exists w k cl c, conn_identity w k = 3 /\ ~ reach_ok 3 w (exec pinned_table w k cl c).
 Proof.
-  exists w_demo, (KAuth 3), 0, (c_demo 121 None (Some 2)). split; [reflexivity|].
+  exists w_demo, (KConn 3), 0, (c_demo 121 None (Some 2)). split; [reflexivity|].
   intros [H _]. specialize (H 2 121 0). vm_compute in H.
   destruct (H (or_introl eq_refl)) as [_ [_ [[E _]|[m [Hin [Hl _]]]]]]; [discriminate E|].
   destruct Hin as [<-|[<-|[]]]; discriminate Hl.
@@ -755,24 +799,203 @@ Proof. exists w_demo, KPending, 0, (c_demo 102 None (Some 2)). split; [reflexivi
 (* ------------------------------------------------------------------------------------------ *)
 Lemma demo_world_wf : wf_world w_demo.
 Proof.
-  split; [cbn; intros [H|[H|[H|[]]]]; discriminate H|].
-  intros d [<-|[]]. cbn. discriminate.
+  split; [cbn; intros [H|[H|[H|[]]]]; discriminate H|]. split.
+  - intros d [<-|[]]. cbn. discriminate.
+  - intros i c [H|[H|[H|[]]]]; injection H as _ <-; discriminate.
 Qed.
 
 Lemma premises_satisfiable :
   wf_world w_demo /\ sound_table current_table = true
-  /\ conn_identity w_demo (KAuth 1) = 1 /\ conn_identity w_demo KPending = 0
+  /\ conn_identity w_demo (KConn 1) = 1 /\ conn_identity w_demo KPending = 0
   (* the listen client deletes its mapping, reports traffic, opens a SOCKS tunnel to its target, resolves through it *)
-  /\ w_maps (res_world (exec current_table w_demo (KAuth 1) 0 (c_demo 76 (Some 0) None))) = tl (w_maps w_demo)
-  /\ map m_sent (w_maps (res_world (exec current_table w_demo (KAuth 2) 0 (c_demo 110 (Some 0) None)))) = [1000000; 0]
-  /\ res_deliv (exec current_table w_demo (KAuth 1) 0 (c_demo 90 (Some 0) None)) = [(2, 35, 0)]
-  /\ res_deliv (exec current_table w_demo (KAuth 1) 0 (c_demo 120 None (Some 2))) = [(2, 120, 0)]
-  /\ res_deliv (exec current_table w_demo (KAuth 1) 0 (c_demo 121 None None)) = [(2, 121, 0)]
+  /\ w_maps (res_world (exec current_table w_demo (KConn 1) 0 (c_demo 76 (Some 0) None))) = tl (w_maps w_demo)
+  /\ map m_sent (w_maps (res_world (exec current_table w_demo (KConn 2) 0 (c_demo 110 (Some 0) None)))) = [1000000; 0]
+  /\ res_deliv (exec current_table w_demo (KConn 1) 0 (c_demo 90 (Some 0) None)) = [(2, 35, 0)]
+  /\ res_deliv (exec current_table w_demo (KConn 1) 0 (c_demo 120 None (Some 2))) = [(2, 120, 0)]
+  /\ res_deliv (exec current_table w_demo (KConn 1) 0 (c_demo 121 None None)) = [(2, 121, 0)]
   (* the stranger (client 3) and the unauthenticated get nothing *)
-  /\ exec current_table w_demo (KAuth 3) 1 (c_demo 76 (Some 0) None) = mk false w_demo
-  /\ exec current_table w_demo (KAuth 3) 1 (c_demo 110 (Some 0) None) = mk false w_demo
-  /\ exec current_table w_demo (KAuth 3) 1 (c_demo 120 None (Some 2)) = mk true w_demo
+  /\ exec current_table w_demo (KConn 3) 1 (c_demo 76 (Some 0) None) = mk false w_demo
+  /\ exec current_table w_demo (KConn 3) 1 (c_demo 110 (Some 0) None) = mk false w_demo
+  /\ exec current_table w_demo (KConn 3) 1 (c_demo 120 None (Some 2)) = mk true w_demo
   /\ exec current_table w_demo KUnknown 1 (c_demo 90 (Some 1) None) = mk false w_demo.
 Proof.
   split; [exact demo_world_wf|]. split; [exact current_table_sound|]. repeat split; vm_compute; reflexivity.
 Qed.
+
+(* ------------------------------------------------------------------------------------------ *)
+(* histories: commands interleaved with registry events on one long-lived session             *)
+(* ------------------------------------------------------------------------------------------ *)
+Lemma run_history_app tbl hs1 : forall w hs2,
+  run_history tbl w (hs1 ++ hs2) =
+  (fst (run_history tbl w hs1) ++ fst (run_history tbl (world_after tbl w hs1) hs2),
+   world_after tbl (world_after tbl w hs1) hs2).
+Proof.
+  unfold world_after.
+  induction hs1 as [|h hs1 IH]; intros w hs2; cbn [app run_history fst snd].
+  - destruct (run_history tbl w hs2); reflexivity.
+  - destruct h as [k cl c|ev].
+    + rewrite (IH (res_world (exec tbl w k cl c)) hs2).
+      destruct (run_history tbl (res_world (exec tbl w k cl c)) hs1) as [rs w1]. cbn [fst snd app]. reflexivity.
+    + apply IH.
+Qed.
+
+(* the result of a command inside a history is exec against the world produced by the prefix — in particular with the
+   identity the registry holds for the connection at that moment, whatever the connection was bound to earlier *)
+Lemma history_dispatch tbl w hs1 k cl c hs2 :
+  let w1 := world_after tbl w hs1 in
+  fst (run_history tbl w (hs1 ++ HCmd k cl c :: hs2)) =
+  fst (run_history tbl w hs1) ++ exec tbl w1 k cl c :: fst (run_history tbl (res_world (exec tbl w1 k cl c)) hs2).
+Proof.
+  cbn zeta. rewrite run_history_app. cbn [fst run_history].
+  destruct (run_history tbl (res_world (exec tbl (world_after tbl w hs1) k cl c)) hs2). reflexivity.
+Qed.
+
+Definition erase_claims (hs : list hstep) : list hstep :=
+  map (fun h => match h with HCmd k _ c => HCmd k 0 c | HEv ev => HEv ev end) hs.
+
+Lemma history_claims_irrelevant_gen tbl :
+  forallb id_not_packet tbl = true -> forall hs w, run_history tbl w hs = run_history tbl w (erase_claims hs).
+Proof.
+  intros Hs hs. induction hs as [|h hs IH]; intro w; cbn [erase_claims map run_history]; [reflexivity|].
+  destruct h as [k cl c|ev].
+  - rewrite (identity_from_connection_gen tbl Hs w k cl 0 c). fold (erase_claims hs). rewrite IH. reflexivity.
+  - fold (erase_claims hs). apply IH.
+Qed.
+
+Lemma history_claims_irrelevant :
+  forall hs w, run_history (current_table ++ [aux_row_current]) w hs = run_history (current_table ++ [aux_row_current]) w (erase_claims hs).
+Proof. exact (history_claims_irrelevant_gen _ (sound_no_packet _ current_table_with_notify_sound)). Qed.
+
+(* identity is a function of the registry state at the time *)
+Lemma lookup_insert_bind i c l : lookup_bind i (insert_bind i c l) = Some c.
+Proof.
+  induction l as [|[j d] l IH]; cbn [insert_bind lookup_bind]; [rewrite N.eqb_refl; reflexivity|].
+  destruct (i =? j) eqn:E; [cbn [lookup_bind]; rewrite N.eqb_refl; reflexivity|].
+  destruct (i <? j); cbn [lookup_bind]; [rewrite N.eqb_refl; reflexivity|].
+  rewrite N.eqb_sym, E. exact IH.
+Qed.
+
+Lemma lookup_remove_bind i l : lookup_bind i (remove_bind i l) = None.
+Proof.
+  induction l as [|[j d] l IH]; cbn [remove_bind lookup_bind]; [reflexivity|].
+  destruct (j =? i) eqn:E; [exact IH|]. cbn [lookup_bind]. rewrite E. exact IH.
+Qed.
+
+Lemma identity_follows_registry w i c :
+  conn_identity (apply_event (EvReauth i c) w) (KConn i) = c /\ conn_identity (apply_event (EvRemove i) w) (KConn i) = 0.
+Proof.
+  split; cbn [apply_event conn_identity with_reg w_bind].
+  - now rewrite lookup_insert_bind.
+  - now rewrite lookup_remove_bind.
+Qed.
+
+(* well-formedness is preserved by commands and by events that bind to a real client *)
+Lemma domain_eq_dec (x y : domain) : {x = y} + {x <> y}.
+Proof. decide equality; apply N.eq_dec. Qed.
+
+Lemma exec_preserves_wf tbl : sound_table tbl = true ->
+  forall w k cl c, wf_world w -> wf_world (res_world (exec tbl w k cl c)).
+Proof.
+  intros Hs w k cl c [Hon [Hdom Hbind]].
+  destruct (reach_only_gen tbl Hs w k cl c) as [_ [_ [Hsub Hbsub]]].
+  destruct (party_only_objects_gen tbl Hs w k cl c) as [_ [Hnew _]].
+  split; [|split].
+  - intro H. apply Hon. now apply Hsub.
+  - intros d Hin. destruct (in_dec domain_eq_dec d (w_doms w)) as [Hold|Hnot]; [now apply Hdom|].
+    destruct (Hnew d Hin Hnot) as [Ho Ha]. now rewrite Ho.
+  - intros i x Hin. apply (Hbind i x). now apply Hbsub.
+Qed.
+
+Lemma insert_cid_in c l x : In x (insert_cid c l) -> x = c \/ In x l.
+Proof.
+  induction l as [|y l IH]; cbn [insert_cid In]; [intros [H|[]]; now left|].
+  destruct (c =? y); [cbn [In]; tauto|]. destruct (c <? y); cbn [In]; [intros [H|H]; auto|].
+  intros [H|H]; [auto|]. destruct (IH H); auto.
+Qed.
+
+Lemma insert_bind_in i c l p : In p (insert_bind i c l) -> p = (i, c) \/ In p l.
+Proof.
+  induction l as [|[j d] l IH]; cbn [insert_bind In]; [intros [H|[]]; now left|].
+  destruct (i =? j); [cbn [In]; intros [H|H]; auto|]. destruct (i <? j); cbn [In]; [intros [H|H]; auto|].
+  intros [H|H]; [auto|]. destruct (IH H); auto.
+Qed.
+
+Definition event_ok (ev : event) : Prop := match ev with EvReauth _ c => c <> 0 | EvRemove _ => True end.
+
+Lemma event_preserves_wf ev w : event_ok ev -> wf_world w -> wf_world (apply_event ev w).
+Proof.
+  intros He [Hon [Hdom Hbind]]. destruct ev as [i c|i]; cbn [apply_event event_ok] in *.
+  - split; [|split; [exact Hdom|]]; cbn [with_reg w_online w_bind w_doms].
+    + intro H. apply insert_cid_in in H. destruct H as [H|H]; [now apply He|]. apply Hon. eapply remove_cid_sub; eauto.
+    + intros j x Hin. apply insert_bind_in in Hin. destruct Hin as [H|H]; [injection H as _ ->; exact He|now apply (Hbind j x)].
+  - split; [|split; [exact Hdom|]]; cbn [with_reg w_online w_bind w_doms].
+    + intro H. apply Hon. eapply remove_cid_sub; eauto.
+    + intros j x Hin. apply (Hbind j x). eapply remove_bind_sub; eauto.
+Qed.
+
+Definition history_ok (hs : list hstep) : Prop :=
+  Forall (fun h => match h with HEv ev => event_ok ev | HCmd _ _ _ => True end) hs.
+
+Lemma history_preserves_wf tbl : sound_table tbl = true ->
+  forall hs w, history_ok hs -> wf_world w -> wf_world (world_after tbl w hs).
+Proof.
+  intros Hs hs. unfold world_after. induction hs as [|h hs IH]; intros w Hok Hwf; cbn [run_history snd]; [exact Hwf|].
+  inversion Hok as [|h' hs' Hh Hrest]; subst. destruct h as [k cl c|ev].
+  - pose proof (IH (res_world (exec tbl w k cl c)) Hrest (exec_preserves_wf tbl Hs w k cl c Hwf)) as H.
+    destruct (run_history tbl (res_world (exec tbl w k cl c)) hs). exact H.
+  - apply IH; [exact Hrest|]. now apply event_preserves_wf.
+Qed.
+
+(* every command of every history is judged by the identity the registry holds when it is dispatched *)
+Lemma history_step_gen tbl : sound_table tbl = true ->
+  forall w hs1 k cl c, wf_world w -> history_ok hs1 ->
+  let w1 := world_after tbl w hs1 in let a := conn_identity w1 k in let r := exec tbl w1 k cl c in
+  (forall cl', exec tbl w1 k cl' c = r) /\
+  (a = 0 -> inert w1 r) /\
+  objects_ok a w1 r /\ reach_ok a w1 r /\
+  (forall m, In m (w_maps w1) -> ~ In m (w_maps (res_world r)) -> partyP a m) /\
+  (forall m, In m (w_maps (res_world r)) -> ~ In m (w_maps w1) -> partyP a m) /\
+  (forall i, In i (res_dm r) -> exists m, In m (w_maps (res_world r)) /\ m_id m = i /\ partyP a m).
+Proof.
+  intros Hs w hs1 k cl c Hwf Hok. cbn zeta.
+  pose proof (history_preserves_wf tbl Hs hs1 w Hok Hwf) as Hwf1.
+  split; [intro cl'; apply (identity_from_connection_gen tbl (sound_no_packet tbl Hs))|].
+  split; [intro Ha; now apply (unauth_refused_gen tbl Hs)|].
+  split; [apply (party_only_objects_gen tbl Hs)|].
+  split; [apply (reach_only_gen tbl Hs)|].
+  exact (party_only_mappings_gen tbl Hs (world_after tbl w hs1) k cl c).
+Qed.
+
+Lemma history_step :
+  forall w hs1 k cl c, wf_world w -> history_ok hs1 ->
+  let tbl := current_table ++ [aux_row_current] in
+  let w1 := world_after tbl w hs1 in let a := conn_identity w1 k in let r := exec tbl w1 k cl c in
+  (forall cl', exec tbl w1 k cl' c = r) /\
+  (a = 0 -> inert w1 r) /\
+  objects_ok a w1 r /\ reach_ok a w1 r /\
+  (forall m, In m (w_maps w1) -> ~ In m (w_maps (res_world r)) -> partyP a m) /\
+  (forall m, In m (w_maps (res_world r)) -> ~ In m (w_maps w1) -> partyP a m) /\
+  (forall i, In i (res_dm r) -> exists m, In m (w_maps (res_world r)) /\ m_id m = i /\ partyP a m).
+Proof. exact (history_step_gen _ current_table_with_notify_sound). Qed.
+
+(* an executor that remembers the identity it resolved first (the seeded defect class) is refuted by a 3-step history:
+   connection #1 lists its domains as client 1, re-authenticates as client 4, deletes client 1's domain *)
+Definition h_stale : list hstep :=
+  [HCmd (KConn 1) 0 (c_demo 87 None None); HEv (EvReauth 1 4); HCmd (KConn 1) 0 (c_demo 86 (Some 0) None)].
+
+Lemma memo_executor_refuted :
+  conn_identity (world_after current_table w_demo [HCmd (KConn 1) 0 (c_demo 87 None None); HEv (EvReauth 1 4)]) (KConn 1) = 4
+  /\ w_doms (snd (run_history_memo current_table [] w_demo h_stale)) = []
+  /\ w_doms (snd (run_history current_table w_demo h_stale)) = w_doms w_demo
+  /\ history_ok h_stale.
+Proof.
+  split; [vm_compute; reflexivity|]. split; [vm_compute; reflexivity|]. split; [vm_compute; reflexivity|].
+  repeat constructor. cbn. discriminate.
+Qed.
+
+(* same history, the connection removed from the registry instead: the stale identity still notifies client 2 as client 1 *)
+Lemma memo_executor_notify_refuted :
+  let hs := [HCmd (KConn 1) 0 (c_demo 87 None None); HEv (EvRemove 1); HCmd (KConn 1) 0 (c_demo 102 None (Some 2))] in
+  map res_deliv (fst (run_history_memo (current_table ++ [aux_row_current]) [] w_demo hs)) = [[]; [(2, C_NotifyClient, 1)]]
+  /\ map res_deliv (fst (run_history (current_table ++ [aux_row_current]) w_demo hs)) = [[]; []].
+Proof. split; vm_compute; reflexivity. Qed.
